@@ -121,6 +121,12 @@ def run(ctx):
         _, outT2, _, _ = eng.run_fake(twin, twin.enum_gitlike([len(twin.objects) - 1, len(twin.objects) - 3]), [], extra_args=["--json", "--json-version=2", "--no-progress"])
         keys1 = set(json.loads(outT1)) - {"reference_groups"}
         keys2 = {k for k in json.loads(outT2) if not k.startswith("refgroup.")}
+        # the twin measured through a plainly spelled ROOT argument (then no tag is traversed and none is cited)
+        twin_c2 = len(twin.objects) - 3
+        _, outX1, _, _ = eng.run_fake(twin, twin.enum_gitlike([twin_c2]), [], [("HEAD", twin_c2)], extra_args=["--json", "--no-progress"])
+        _, outX2, _, _ = eng.run_fake(twin, twin.enum_gitlike([twin_c2]), [], [("HEAD", twin_c2)], extra_args=["--json", "--json-version=2", "--no-progress"])
+        keys1x = set(json.loads(outX1)) - {"reference_groups"}
+        keys2x = {k for k in json.loads(outX2) if not k.startswith("refgroup.")}
         for it in range(40 if quick else 600):
             sc, names = gen_named(rng)
             has_lf = any(b"\n" in n for n in names)
@@ -132,6 +138,14 @@ def run(ctx):
             roots = [len(sc.objects) - 1, len(sc.objects) - 3]
             order = sc.enum_gitlike(roots)
             real = (it % 5 == 0)
+            # ROOT arguments spelled with unusual bytes (the fake git resolves any spelling): the spelling becomes part of
+            # every description below that root
+            explicit = []
+            if not real and it % 3 == 1:
+                sp = rng.choice(["HEAD^{/fix \"it\"}", "main~0", "refs/heads/caf\u00e9", "a b:c", "q'uo\"te", "back\\slash", "tab\there",
+                                 "\x01ctl", "x" * 300, "[1]", "@{-1}", "HEAD^{tree}x", "\u221e", "new\nline"])
+                explicit = [(sp, len(sc.objects) - 3)]
+                has_lf = has_lf or "\n" in sp
             for ns in ("full", "hash", "none"):
                 for fmt in (["-v"], ["--json"], ["--json", "--json-version=2"]):
                     args = fmt + ["--no-progress", "--names=" + ns]
@@ -143,10 +157,10 @@ def run(ctx):
                             continue       # git refuses the reference name: not an input of the property
                         eng.drop(d)
                     else:
-                        rc, out, err, log = eng.run_fake(sc, order, [], config=cfg, extra_args=args)
-                    inp = {"names": [n.decode("latin1") for n in names], "args": args, "driver": "real-git" if real else "fakegit",
+                        rc, out, err, log = eng.run_fake(sc, order, [], explicit, config=cfg, extra_args=args)
+                    inp = {"names": [n.decode("latin1") for n in names], "args": args + [sp_ for sp_, _ in explicit], "driver": "real-git" if real else "fakegit",
                            "refs": [n.decode("latin1") for n, _ in sc.refs], "config": cfg}
-                    res.case((tuple(names), tuple(args), real, tuple(cfg)), True,
+                    res.case((tuple(names), tuple(args), real, tuple(cfg), tuple(explicit)), True,
                              sample={"names": inp["names"], "args": args, "stdout_head": out[:300].decode("latin1")} if it % 17 == 0 and ns == "full" and fmt == ["-v"] else None)
                     if rc != 0:
                         res.violations.append(vlib.Violation("run failed: %s" % err[:200].decode("latin1"), inp, expected="exit 0"))
@@ -157,12 +171,13 @@ def run(ctx):
                         except Exception as e:
                             res.violations.append(vlib.Violation("stdout is not valid JSON: %s" % e, inp, observed=out[:300].decode("latin1")))
                             continue
+                        k1, k2 = (keys1x, keys2x) if explicit else (keys1, keys2)
                         if len(fmt) == 1:
                             ks = set(j) - {"reference_groups"}
-                            exp = keys1 if ns != "none" else {k for k in keys1 if not (k.endswith("_commit") or k.endswith("_tree") or k.endswith("_blob") or k.endswith("_tag") or k == "max_commit")}
+                            exp = k1 if ns != "none" else {k for k in k1 if not (k.endswith("_commit") or k.endswith("_tree") or k.endswith("_blob") or k.endswith("_tag") or k == "max_commit")}
                         else:
                             ks = {k for k in j if not k.startswith("refgroup.")}
-                            exp = keys2
+                            exp = k2
                         if ks != exp:
                             res.violations.append(vlib.Violation("JSON key set differs from the plain-name twin", inp,
                                                                  expected=sorted(exp - ks), observed=sorted(ks - exp)))
